@@ -44,8 +44,24 @@ def dist(mod, name):
     TYPES.append(D + mod + '::{struct %s}' % name)
 
 
+DOMV = {}      # struct name -> validity predicate of its constructor (over the parameter = field names)
+
+
+def dom_of(name, obj):
+    """domain invariant of a distribution object: the constructor's validity predicate read over the object's fields"""
+    import re
+    v = DOMV[name]
+    return re.sub(r'\b([a-z_][a-z_0-9]*)\b', lambda mm: mm.group(0) if mm.group(1) in ('rv',) else '%s.%s' % (obj, mm.group(1)), v)
+
+
 def m(mod, name, fn, trait=None, **kw):
     hdr = 'impl %s for %s' % (trait, name) if trait else 'impl %s' % name
+    if fn == 'new':
+        DOMV[name] = kw.get('valid', 'true')
+    elif (fn.startswith('set_') or fn == 'update') and name in DOMV and DOMV[name] != 'true':
+        # `&mut self` methods: the object satisfies its domain invariant on entry and at every panic site (property C18)
+        kw['requires'] = list(kw.get('requires', [])) + ['C18.%s.%s.dom:: %s' % (mod, fn, dom_of(name, 'old(self)'))]
+        kw['panic_inv'] = dom_of(name, 'self')
     f = Fn(D + mod + '::{%s}::%s' % (hdr, fn), inherent=bool(trait), level='L1', **kw)
     FNS.append(f)
     return f
